@@ -158,7 +158,19 @@ func childC12Census(args []string) {
 	size, _ := strconv.Atoi(args[3])
 	K, _ := strconv.Atoi(args[4])
 	var counts []string
+	alt := strings.HasSuffix(rname, "-alt") // history alternating coarse and fine renders (differently sized work per render)
+	rname = strings.TrimSuffix(rname, "-alt")
+	base := size
 	for k := 1; k <= K; k++ {
+		if alt {
+			size = base
+			if k%2 == 0 {
+				size = base * 6
+			}
+			if k%5 == 0 {
+				size = base * 3
+			}
+		}
 		if sink == "mem" {
 			if rname == "uniform" || rname == "octree" || rname == "scripted" {
 				render.ToTriangles(c12Shape3(), c12Render3(rname, size))
@@ -312,7 +324,7 @@ func checkC12(c *Ctx) {
 		sink, r string
 		size    int
 	}
-	cens := []cen{{"mem", "uniform", 8}, {"mem", "octree", 8}, {"stl", "uniform", 8}, {"stl", "octree", 8}, {"stl", "scripted", 600},
+	cens := []cen{{"mem", "uniform", 8}, {"mem", "octree", 8}, {"mem", "uniform-alt", 6}, {"stl", "uniform-alt", 5}, {"mem", "octree-alt", 6}, {"dxf", "uniform-alt", 10}, {"stl", "uniform", 8}, {"stl", "octree", 8}, {"stl", "scripted", 600},
 		{"3mf", "uniform", 6}, {"dxf", "uniform", 12}, {"dxf", "quadtree", 12}, {"svg", "uniform", 12}, {"svg", "quadtree", 12}}
 	census := map[string]string{}
 	parallelFor(len(cens), func(i int) {
